@@ -77,7 +77,10 @@ class RawFunctionDecl(ParsableDef):
             raise GuppyError(BodyNotEmptyError(func_ast.body[0], self.name))
         # Make sure we won't need monomorphization to compile this declaration
         if mono_params := require_monomorphization(ty.params):
-            raise GuppyError(MonomorphizeError(func_ast, self.name, mono_params.pop()))
+            # Report the first such parameter: popping from the set would make the
+            # message depend on the hash seed
+            param = min(mono_params, key=lambda p: p.idx)
+            raise GuppyError(MonomorphizeError(func_ast, self.name, param))
         return CheckedFunctionDecl(
             self.id,
             self.name,
